@@ -145,6 +145,7 @@ type isoDB struct {
 	inner   *store.BeansDB
 	visible map[string]bool
 	gets    int
+	flushes int // write batches handed to the store
 }
 
 func isoKey(flg uint32, key []byte) string {
@@ -197,6 +198,9 @@ func (b *isoBatch) Commit() error {
 		b.d.visible[k] = true
 	}
 	stat("kv_batch_items", int64(len(items)))
+	if len(items) > 0 {
+		b.d.flushes++
+	}
 	return nil
 }
 func (b *isoBatch) Items() []*store.BatchItem { return b.inner.Items() }
